@@ -19,6 +19,7 @@ from .. import arith
 
 CRATES = ['trust_runtime', 'trust_hir']
 NODEFAULT_OK = True
+NODEFAULT_SKIP = ['C01.R5']      # the checker-side table lives in trust_hir, which the second configuration does not load
 EXPLANATION = __doc__
 
 RT = 'trust_runtime::'
